@@ -486,7 +486,7 @@ def check_c16(tier, deadline):
         if flavour == "asan":
             env["ASAN_OPTIONS"] = "detect_leaks=0:allocator_may_return_null=0:max_allocation_size_mb=1024:abort_on_error=0"
             env["UBSAN_OPTIONS"] = "print_stacktrace=1:halt_on_error=1"
-        cmd = [os.path.join(bdir, "drv_damage"), "--tier", tier, "--profile", profile, "--limit", str(limit), "--workers", str(WORKERS), "--deadline", str(deadline / len(plan)), "--scratch", sc, "--out", out] + (["--primed"] if primed else [])
+        cmd = [os.path.join(bdir, "drv_damage"), "--tier", tier, "--profile", profile, "--limit", str(limit), "--workers", str(WORKERS), "--deadline", str(max(deadline / len(plan), 150 if tier == "quick" else 0)), "--scratch", sc, "--out", out] + (["--primed"] if primed else [])
         r = sh(cmd, env=env, capture_output=True, text=True)
         if r.returncode != 0 or not os.path.exists(out):
             log("driver failed", " ".join(cmd), r.stdout[-1000:], r.stderr[-1000:]); raise SystemExit(3)
@@ -496,7 +496,7 @@ def check_c16(tier, deadline):
             rep.add(v["sig"], f"damaged file makes the loader end in '{v['sig'].split('/')[0]}' ({flavour} build)", {"engine": "damage", "tier": tier, "flavour": flavour, "input": v["case"]}, v["count"])
         runs.append(d)
     rep.coverage = {"evaluations": sum(d["done"] for d in runs), "distinct_nontrivial": sum(d["done"] for d in runs),
-                    "rule": "5 small valid base files (blank, points only, points+analogs+events, multi-dimensional parameters, leading zeros) from the independent encoder; damage = every truncation length; "
+                    "rule": "6 small valid base files (blank, points only, points+analogs+events, multi-dimensional parameters, leading zeros, channels with the minimal parameter set) from the independent encoder; damage = every truncation length; "
                             "every byte of header + parameter section + first data block x {0,1,0x7F,0x80,0xFF}; every structural byte (name lengths, ids, next-offsets, types, dimension counts, dimensions, "
                             "description lengths, prologue, header counts/range/data start) x all 256 values; pairs of structural bytes x boundary values (2 bases quick, all thorough); each damaged file loaded in a forked "
                             "child (plain build: address-space cap + watchdog, timeouts re-run alone with a 10x limit; ASan build: sanitizer reports); every case is a distinct damaged input; 'primed' runs fork the children from a process that has already loaded 12 valid files "
